@@ -86,6 +86,16 @@ def generate(loader):
                     raise TraceError(f"Grid.{nm}(align_corners={ac}) does not keep the flag")
                 if not trlib.same_tensor(g.origin().a, g1.origin().a):
                     raise TraceError(f"Grid.{nm}(align_corners={ac}).origin() depends on the align_corners flag")
+        # flat attribute sequences: from_seq / from_numpy with origin=True are the origin route, without it the center route
+        seq_o = n.a.tolist() + s.a.tolist() + o.a.tolist() + d.a.reshape(-1).tolist()
+        seq_c = n.a.tolist() + s.a.tolist() + c.a.tolist() + d.a.reshape(-1).tolist()
+        with _unit_det():
+            alts = [("from_seq(origin=True)", Grid.from_seq(seq_o, origin=True), g1), ("from_numpy(origin=True)", Grid.from_numpy(seq_o, origin=True), g1),
+                    ("from_seq()", Grid.from_seq(seq_c), g2), ("from_numpy()", Grid.from_numpy(seq_c), g2)]
+        for nm, ga, ref in alts:
+            if not (trlib.same_tensor(ga._size.a, ref._size.a) and trlib.same_tensor(ga._spacing.a, ref._spacing.a)
+                    and trlib.same_tensor(ga._direction.a, ref._direction.a) and trlib.same_tensor(ga._center.a, ref._center.a)):
+                raise TraceError(f"Grid.{nm} is not the grid of the corresponding constructor route")
         # both given: consistency check happens in the constructor (allclose) -- not traced
         # default spacing / direction
         with _unit_det():
